@@ -41,7 +41,10 @@ theorem C19_all_paths_compliant_if_no_deviation (ps : List ReqPath) (h : deviati
     | cons a l => rw [hm] at h1; simp at h1
   simp [compliant, h2]
 
-/-- The paths that deviate today (D31). -/
+/-- The paths that deviate today (D31).
+    When these are repaired in /repo this theorem (and the two `…_counterexample`s at the end) stop holding; they
+    are then replaced by the unconditional
+    `theorem C19_all_paths_compliant : ∀ p ∈ Mcp.Gen.ReqPaths.paths, compliant p = true := by decide`. -/
 theorem C19_noncompliant_witness :
     deviations Mcp.Gen.ReqPaths.paths =
       [ (t!"sendResponseMessage", .beforeRequest),
@@ -66,7 +69,7 @@ private theorem compliant_iff (p : ReqPath) (k : Kind) (hk : kindOf p = some k) 
     compliant p = true ↔
       (p.verb = verbOf k ∧ urlOk k p.client p.url = true ∧ p.headersLoop = true ∧
        (p.client = .streamable → p.sessionHeader = true) ∧ viaOk p.via = true ∧ p.usesClient = true ∧
-       p.beforeCalls = 1 ∧ p.beforeOrdered = true ∧ p.beforeCtx = wantCtx k ∧ p.beforeErrReturns = true) := by
+       p.beforeCalls = 1 ∧ p.beforeOrdered = true ∧ ctxOk k p.beforeCtx = true ∧ p.beforeErrReturns = true) := by
   unfold compliant missing
   rw [hk]
   simp only [missingFor, List.isEmpty_iff, List.append_eq_nil_iff]
@@ -87,7 +90,7 @@ private theorem compliant_iff (p : ReqPath) (k : Kind) (hk : kindOf p = some k) 
     have ⟨h9, h10⟩ := List.append_eq_nil_iff.mp h8
     have h9 := (ite_nil_iff _ _).mp h9
     have h10 := (ite_nil_iff _ _).mp h10
-    refine ⟨by simpa using h1, h2, h3, ?_, h5, h6, hb, ho, by simpa using h9, h10⟩
+    refine ⟨by simpa using h1, h2, h3, ?_, h5, h6, hb, ho, h9, h10⟩
     intro hc
     by_cases hs : p.sessionHeader = true
     · exact hs
@@ -121,7 +124,7 @@ theorem C19_compliant_iff_observably_good (p : ReqPath) (k : Kind) (hk : kindOf 
       | sse => cases k <;> simp [hc, urlOk] at h2 <;> simp [h2]
       | other => cases k <;> simp [hc, urlOk] at h2
     have hctx : ctxObs k p.beforeCtx = (if background k then CtxObs.handshake else CtxObs.caller) := by
-      rw [h9]; cases k <;> simp [wantCtx, background, ctxObs]
+      cases k <;> cases hc : p.beforeCtx <;> simp [hc, ctxOk, wantCtx, background] at h9 <;> simp [ctxObs, background]
     simp only [good, requestOf, h1, h3, h6, h7, hvia, hpath, hsess, hctx]
     cases cfg.before <;> cases cfg.headers <;> cases cfg.client <;> simp
   · rintro ⟨hg, hs, hb⟩
@@ -134,8 +137,8 @@ theorem C19_compliant_iff_observably_good (p : ReqPath) (k : Kind) (hk : kindOf 
     have hb1 : p.beforeCalls = 1 := by simpa using be
     have hcx : ctxObs k p.beforeCtx = (if background k then CtxObs.handshake else CtxObs.caller) := by
       simpa [hb1] using cx
-    have hctx : p.beforeCtx = wantCtx k := by
-      cases hk' : k <;> cases hc : p.beforeCtx <;> simp [hk', hc, ctxObs, background, wantCtx] at hcx ⊢
+    have hctx : ctxOk k p.beforeCtx = true := by
+      cases hk' : k <;> cases hc : p.beforeCtx <;> simp [hk', hc, ctxObs, background, wantCtx, ctxOk] at hcx ⊢
     have hvia : viaOk p.via = true := by
       cases hv : p.via <;> simp [hv, viaObs] at vi <;> simp [viaOk]
     have hblk : blocks p = true := by simpa [attempt] using hs
